@@ -8,7 +8,7 @@ ALL = [f"C{n:02d}" for n in range(1, 21)]
 CLAIMS = {
  "C01": dict(
   technique="runtime monitor over decoder executions: panic hook + read_name step counter hook + counting allocator + differential against an independent RFC 1035 parser, on random/mutated/grammar/overlapping-pointer-run/exhaustive small-alphabet inputs",
-  text="Every generated datagram (millions per run, plus every string over a 9-byte name alphabet up to length 6/7 behind four headers) is decoded by the real decoder under instrumentation: a panic, more than 128*len+1024 name-loop steps, more than 1024*len+1MiB peak heap, a name longer than the datagram, or any disagreement with the independent parser W on an accepted message is a violation. Held on the inputs explored; not a proof for all 2^72000 datagrams.",
+  text="Every generated datagram (millions per run, plus every string over a 9-byte name alphabet up to length 6/7 behind four headers) is decoded by the real decoder under instrumentation: a panic, more than 128*len+1024 name-loop steps, more than 1024*len+1MiB peak heap, a name longer than the datagram, or any disagreement with the independent parser W on an accepted message is a violation; label runs laid over one another by backward pointers (G5) and, at a running daemon, every proper prefix of valid responses (R6: nothing beyond the received bytes may be acted on) are part of the input. Held on the inputs explored; not a proof for all 2^72000 datagrams.",
   note="Trusts the independent parser W (harness/src/wire.rs), the step hook in read_name (loops elsewhere are bounded by 16-bit counts) and the counting allocator.",
   ref="§6 C01"),
  "C02": dict(
@@ -19,7 +19,7 @@ CLAIMS = {
  "C11": dict(
   technique="runtime monitor against an exact integer model: real record life-time functions driven under a virtual clock (component), refresh/flush/expiry observed on the simulated wire (world)",
   text="Every TTL 1..600 (thorough ..3000) and large values up to u32::MAX are run through observation sequences (at the marks, +-1 ms around every boundary, skipping marks, with fresh copies) and each answer of the real record (expired, half-life, refresh due, written known-answer TTL) is compared with the model of the statement.",
-  note="TTL<=1 carries no refresh obligation. World-level part (refresh queries, cache-flush rule, late wake-ups) is reported in the evidence when present.",
+  note="TTL<=1 carries no refresh obligation. World-level part: refresh queries on the wire (L2), the cache-flush rule around the one-second boundary for addresses (other interface, other family, same burst) and for TXT/SRV replaced and replaced back (L3), late wake-ups (L1).",
   ref="§6 C11"),
  "C16": dict(
   technique="runtime round-trip monitor: generated property lists through every input type -> ServiceInfo::new -> TXT RDATA (facade) -> independent TXT parser and the crate's public decoder, compared with the given list; end to end through a registering and a browsing daemon on one simulated link",
@@ -28,12 +28,12 @@ CLAIMS = {
   ref="§6 C16"),
  "C07": dict(
   technique="runtime trace monitor over the simulated wire: per registration x interface x family rules on probe count/spacing/content, announcement time, repeat and content, silence before the announcement",
-  text="Thousands of generated registration scenarios (1-3 interfaces, v4/v6, 1-4 services, shared hosts, subtypes, automatic addresses, probing on/off, staggering, forced boundary jitters, queries injected while probing, an interface appearing later) run against the real daemon under a virtual clock; every packet it emits is parsed by the independent parser and checked against P1-P6 with exact virtual-time arithmetic (lazy stepping) or +g (eager).",
+  text="Thousands of generated registration scenarios (1-3 interfaces, v4/v6, 1-4 services, shared hosts, subtypes, automatic addresses, probing on/off, staggering, forced boundary jitters, queries injected while probing, an interface appearing later) run against the real daemon under a virtual clock; every packet it emits is parsed by the independent parser and checked against P1-P6 with exact virtual-time arithmetic (lazy stepping) or +g (eager); services renamed by a conflict while probing (the C08 part R scenarios) are judged for reaching the announced state and two announcements one second apart under their final names.",
   note="Oversleep stepping excluded (schedule presumes the daemon is woken when it asks). Services sharing a host name use the same address set (otherwise the daemon conflicts with its own announcements, noted in DESIGN §12).",
   ref="§6 C07"),
  "C12": dict(
   technique="runtime differential monitor (same scenario woken only on request vs additionally every 10 ms) + invariant on hooked state at every loop iteration (requested wake-up <= every future due time) + idle-spin detector",
-  text="Paired lazy/eager runs of registration, search, lost-tiebreak, interface-check-interval, expiry/goodbye/flush/verify/stop and follow-up scenarios: every action of the eager run must occur in the lazy run and not later (W1); at every gate of the lazy run the requested wake-up is compared with all pending due times read from a full state snapshot (W2); three idle iterations asking to be woken at or before their own time are a spin (W3).",
+  text="Paired lazy/eager runs of registration, search, lost-tiebreak, conflict-rename, interface-check-interval, expiry/goodbye/flush/verify/stop and follow-up scenarios: every action of the eager run must occur in the lazy run and not later (W1); at every gate of the lazy run the requested wake-up is compared with all pending due times read from a full state snapshot (W2); three idle iterations asking to be woken at or before their own time are a spin (W3).",
   note="Constant jitter per pair (HashMap visiting order must not change who gets which jitter). The interface-check timer is a local of the run loop: covered by W1 only.",
   ref="§6 C12"),
  "C13": dict(
@@ -48,7 +48,7 @@ CLAIMS = {
   ref="§6 C14"),
  "C15": dict(
   technique="runtime crash/liveness monitor: panic hook + daemon-thread exit guard + post-input liveness probes, under hostile API arguments and hostile datagram streams in a simulated world with conflict injection",
-  text="Thousands of cases of 1-3 hostile API calls (names from a hostile grammar incl. labels of 0-256 bytes, multi-byte boundaries, dots/backslashes, existing rename suffixes, totals around 255; extreme numbers), each followed by 6.3 virtual seconds in which every probe is answered with conflicting data, and hundreds of 20-80-datagram streams (random, mutated, grammar-hostile, and valid record chains with hostile labels that the daemon re-encodes in follow-ups); afterwards status must be Running, a fresh browse must start, and the browse opened before the input must still report a new instance.",
+  text="Thousands of cases of 1-3 hostile API calls (names from a hostile grammar incl. labels of 0-256 bytes, multi-byte boundaries, dots/backslashes, existing rename suffixes, totals around 255; extreme numbers), each followed by 6.3 virtual seconds in which every probe is answered with conflicting data, and hundreds of 20-80-datagram streams (random, mutated, grammar-hostile, and valid record chains with hostile labels that the daemon re-encodes in follow-ups and arbitrary / damaged TXT data; conflicting answers also spell the probed name as its escaped text, so that renaming runs for names with dots and backslashes); afterwards status must be Running, a fresh browse must start, and the browse opened before the input must still report a new instance.",
   note="Checked profile (overflow checks and debug assertions on), so overflow-only panics are reported too.",
   ref="§6 C15"),
  "C19": dict(
@@ -63,7 +63,7 @@ CLAIMS = {
   ref="§6 C03"),
  "C04": dict(
   technique="runtime trace monitor over enumerated delivery orders and packet splits: completeness instants computed from the delivered records, ServiceFound/ServiceResolved required at that very instant; follow-up questions timed on the simulated wire",
-  text="The 4-7 records of an instance in every order and every split into up to four packets (exhaustive for 4 records quick / 5 thorough, sampled beyond), answer or additional section, duplicates, foreign records, 1-3 instances, hostile labels, host names in another letter case; PTR-only deliveries with the daemon's follow-up questions answered on try 1/2/3/never: Found then Resolved at the instant the last needed record arrives (F1), follow-ups within 500 ms, 500 ms apart, at most three (F2), reported name is the registered one (F3).",
+  text="The 4-7 records of an instance in every order and every split into up to four packets (exhaustive for 4 records quick / 5 thorough, sampled beyond), answer or additional section, duplicates, foreign records, 1-3 instances, hostile labels, host names in another letter case; PTR-only deliveries with the daemon's follow-up questions answered on try 1/2/3/never: Found then Resolved at the instant the last needed record arrives (F1), follow-ups within 500 ms, 500 ms apart, at most three (F2) - also for an instance that was withdrawn or expired and comes back with a lone PTR, for services carrying an unbrowsed subtype and with PTR answers of other types around ours -, reported name is the registered one (F3).",
   note="No obligation for follow-up questions about names containing '.' or '\\' (re-encoded differently, see known findings of C08).",
   ref="§6 C04"),
  "C05": dict(
@@ -73,8 +73,8 @@ CLAIMS = {
   ref="§6 C05"),
  "C06": dict(
   technique="runtime differential monitor against a responder reference model: for each injected query the response required by the statement is computed from the API history and compared with the daemon's egress of the iteration that consumed the query",
-  text="Thousands of responder scenarios (1-3 interfaces on differing subnets, v4/v6; 1-4 services with subtypes, shared hosts, upper-case letters; registered, re-registered, unregistered) with 10-39 queries each at any time, 1-8 questions among type/subtype/meta PTR, SRV, TXT, ANY, A/AAAA (case variants), foreign names, from port 5353 or an ephemeral port, over IPv4 or IPv6, with and without known answers: record sets, values, link-local addresses only, destination, ID and question echo (Q1-Q6).",
-  note="A query is judged only if nothing else was due at that instant and not within 400 ms of the end of probing. Renamed services are C08's workload.",
+  text="Thousands of responder scenarios (1-3 interfaces on differing subnets, v4/v6; 1-4 services with subtypes, shared hosts, upper-case letters; registered, re-registered, unregistered) with 10-39 queries each at any time, 1-8 questions among type/subtype/meta PTR, SRV, TXT, ANY, A/AAAA (case variants), foreign names, from port 5353 or an ephemeral port, over IPv4 or IPv6, with and without known answers, one scenario in six with a service renamed by a conflict (names in force read off its last announcement): record sets, values, link-local addresses only, destination, ID and question echo (Q1-Q6).",
+  note="A query is judged only if nothing else was due at that instant and not within 400 ms of the end of probing.",
   ref="§6 C06"),
  "C08": dict(
   technique="runtime trace monitor over the simulated wire of one to three real daemons: injected conflicting responses and competing probes at every probe step, a label-level model of the renaming rule, pairwise antisymmetry runs, and a final-state check over a dense grid of start offsets",
@@ -98,12 +98,12 @@ CLAIMS = {
   ref="§6 C17"),
  "C18": dict(
   technique="runtime monitor: a selection model (call order, last match wins, later interfaces) compared at checkpoints with the daemon's interface table read from hooked state and with the links a fresh query leaves on; per-packet link/subnet rules on the simulated wire; event and cache-snapshot checks after interface loss",
-  text="Part S: 1-4 interfaces (v4/v6/both, two subnets on one interface, loopback) x 1-6 operations among enable/disable with every IfKind (All, IPv4, IPv6, Name, Addr present/absent/later, Loopback, IndexV4/V6, Predicate) and table edits (address added/removed/moved, interface down/up/added/removed), announcements injected on links that are on or off (I3). Part E: explicit and automatic addresses: packets about a service only where it has an address in the link's subnet, carrying only that link's addresses; automatic services follow new addresses (I1, I2). Part P: instances learned over two interfaces, then one disappears or is disabled wholly or by family: ServiceRemoved / re-resolved with what is left, nothing learned there reported again, nothing of it left in the cache (I4, I5).",
+  text="Part S: 1-4 interfaces (v4/v6/both, two subnets on one interface, loopback) x 1-6 operations among enable/disable with every IfKind (All, IPv4, IPv6, Name, Addr present/absent/later, Loopback, IndexV4/V6, Predicate) and table edits (address added/removed/moved, interface down/up/added/removed), announcements injected on links that are on or off (I3). Part E: up to three selection calls, then explicit and automatic addresses: packets about a service only where it has an address in the link's subnet, carrying only that link's addresses; automatic services follow new addresses (I1, I2). Part P: instances learned over two interfaces, then one disappears or is disabled wholly or by family: ServiceRemoved / re-resolved with what is left, nothing learned there reported again, nothing of it left in the cache (I4, I5).",
   note="Nothing is judged for one interface-check interval after a table edit (the daemon cannot know yet).",
   ref="§6 C18"),
  "C20": dict(
   technique="runtime monitor of state size: the daemon's own metrics, a hooked full-state snapshot (map keys, records, timers, retransmissions) and paired 1x/4x traffic runs compared",
-  text="Traffic scenarios (40-400 packets: announcements of types nobody browses, SRV/TXT/address records without PTR, NSEC, instances that come and go, endless re-announcements; TTLs to 120 s; with/without browse, hostname search, own registration, accept_unsolicited): after stopping every search and waiting max TTL + 3 s nothing is cached and at most the interface-check timer is left (G1); at checkpoints the cache holds no more than the open searches relate to (G2); 4x the traffic ends with the same counts (G3).",
+  text="Traffic scenarios (40-400 packets: announcements of types nobody browses, SRV/TXT/address records without PTR, NSEC, instances that come and go, PTR-only instances that never resolve, endless re-announcements; TTLs to 120 s; with/without browse, hostname search, own registration, accept_unsolicited): after stopping every search and waiting max TTL + 3 s nothing is cached and at most the interface-check timer is left (G1); at checkpoints the cache holds no more than the open searches relate to (G2); 4x the traffic ends with the same counts (G3).",
   note="G2 allowance 2 x related + 8; G3 flags growth by more than 2x and more than 6. Four known findings (timer heap, PTR-less records, NSEC) in known_findings.json.",
   ref="§6 C20"),
 }
